@@ -187,6 +187,12 @@ func (w *c01rWorld) script(host string, lmtp bool) peers.Script {
 				return peers.Err(451, [3]int{4, 3, 0}, "scripted 451 at "+stage)
 			case "421":
 				return peers.Err(421, [3]int{4, 4, 2}, "scripted 421 at "+stage)
+			case "450ne":
+				return &smtp.SMTPError{Code: 450, Message: "scripted 450 without enhanced code at " + stage}
+			case "554ne":
+				return &smtp.SMTPError{Code: 554, Message: "scripted 554 without enhanced code at " + stage}
+			case "552":
+				return peers.Err(552, [3]int{5, 3, 4}, "scripted 552 at "+stage)
 			case "5":
 				return peers.Err(550, [3]int{5, 1, 1}, "scripted 550 at "+stage)
 			}
@@ -427,8 +433,12 @@ func c01rRun(scratch string, c c01rCase) (res c01rResult) {
 		}
 		for _, a := range []string{get("rcpt", r), get("mail", ""), get("data", ""), statusA} {
 			switch a {
-			case "4", "421":
+			case "4", "421", "450ne":
 				return "temp"
+			case "554ne":
+				return "perm"
+			case "552":
+				return "free" // RFC 5321 4.5.3.1.10 lets a client treat 552 as 452: retry or give up
 			case "5":
 				return "perm"
 			case "drop":
@@ -473,8 +483,10 @@ func c01rRun(scratch string, c c01rCase) (res c01rResult) {
 	tries := map[string]int{}
 	status := map[string]string{}
 	totalDelivered := map[string]int{}
+	pendingAt := map[int][]string{} // recipients pending when attempt k started
 	for k := 1; k <= len(w.attempts); k++ {
 		a := w.attempts[k-1]
+		pendingAt[k] = append([]string{}, pending...)
 		if len(pending) == 0 {
 			return fail("attempt-after-terminal", "attempt %d started although every recipient had a terminal outcome", k)
 		}
@@ -555,9 +567,92 @@ func c01rRun(scratch string, c c01rCase) (res c01rResult) {
 	for _, r := range c.Cfg.Rcpts {
 		oc = append(oc, status[r])
 	}
+	if c01rCheckReports {
+		// ---- C16: the reports agree with how the failures were treated ---------------------
+		kindIn := func(k int, r string) string {
+			host := c01rHostOf(c.Cfg.Kind, r)
+			for _, st := range []string{"rcpt", "mail", "data", "status"} {
+				arg := ""
+				if st == "rcpt" || st == "status" {
+					arg = strings.ToLower(r)
+				}
+				for ak, av := range actions {
+					if av != "" && strings.HasPrefix(ak, fmt.Sprintf("a%02d|%d%s|%s|", k, c01rStageRank[st], st, host)) && (arg == "" || strings.HasSuffix(ak, "|"+arg)) {
+						return st + ":" + av // the treatment of a reply may depend on the stage (552 at RCPT is handled as 452)
+					}
+				}
+			}
+			return ""
+		}
+		ri := 0
+		for k := 1; k <= len(w.attempts); k++ {
+			for range reportsAfter[k] {
+				if ri >= len(bounce.dels) {
+					break
+				}
+				body := string(bounce.dels[ri].Body)
+				ri++
+				for _, blk := range strings.Split(strings.ReplaceAll(body, "\r\n", "\n"), "\n\n") {
+					m := c01FinalRcpt.FindStringSubmatch(blk)
+					if m == nil {
+						continue
+					}
+					rc := m[1]
+					var st, dc string
+					for _, ln := range strings.Split(blk, "\n") {
+						if v, ok := strings.CutPrefix(ln, "Status: "); ok {
+							st = strings.TrimSpace(v)
+						}
+						if v, ok := strings.CutPrefix(ln, "Diagnostic-Code: smtp; "); ok {
+							dc = strings.TrimSpace(v)
+						}
+					}
+					if len(st) < 1 || len(dc) < 1 {
+						return fail("report:status-missing", "report after attempt %d: recipient %s has Status %q and Diagnostic-Code %q", k, rc, st, dc)
+					}
+					if st[0] != dc[0] {
+						return fail("report:classes-disagree", "report after attempt %d: recipient %s has Status %s and Diagnostic-Code %s", k, rc, st, dc)
+					}
+					tryNo := 0
+					for j := 1; j <= k; j++ {
+						for _, o := range pendingAt[j] {
+							if strings.EqualFold(o, rc) {
+								tryNo++
+							}
+						}
+					}
+					kind := kindIn(k, rc)
+					if tryNo > 0 && tryNo < c.Cfg.MaxTries && st[0] != '5' {
+						return fail("report:class-vs-treatment", "recipient %s was given up after try %d of %d (treated as a permanent failure) but the report says Status %s (reply kind %q)", rc, tryNo, c.Cfg.MaxTries, st, kind)
+					}
+					for j := 1; j < k; j++ {
+						if kind != "" && !strings.HasSuffix(kind, ":drop") && kindIn(j, rc) == kind && st[0] != '4' {
+							return fail("report:class-vs-treatment", "recipient %s got the reply %q in attempt %d and was retried (treated as temporary); the same reply in attempt %d is reported with Status %s / %s", rc, kind, j, k, st, dc)
+						}
+					}
+					switch kind[strings.Index(kind, ":")+1:] {
+					case "4", "421", "450ne":
+						if st[0] != '4' {
+							return fail("report:class-vs-reply", "recipient %s got a 4xx reply (%s) and is reported with Status %s", rc, kind, st)
+						}
+					case "5", "554ne":
+						if st[0] != '5' {
+							return fail("report:class-vs-reply", "recipient %s got a 5xx reply (%s) and is reported with Status %s", rc, kind, st)
+						}
+					}
+				}
+			}
+		}
+	}
 	res.outcome = fmt.Sprintf("%s/attempts=%d/reports=%d", strings.Join(oc, ","), len(w.attempts), len(bounce.dels))
 	return res
 }
+
+// answers scripted by the C01 part; the C16 part adds 552
+var c01rActs = []string{"4", "5", "drop", "421", "450ne", "554ne"}
+
+// c01rCheckReports: also judge the content of the failure reports (C16 part)
+var c01rCheckReports bool
 
 // c01rAllowed: which answers are scripted at which stage. A refused greeting is
 // modelled by 451 and by a dropped connection; 421 ("closing the channel") only at
@@ -652,7 +747,7 @@ func TestVerifC01Real(t *testing.T) {
 		if vx.Thorough() && len(cfg.Rcpts) <= 2 && cfg.MaxTries == 2 {
 			bound = 6
 		}
-		acts := []string{"4", "5", "drop", "421"}
+		acts := c01rActs
 		var rec func(plan map[string]string, last string, top bool)
 		rec = func(plan map[string]string, last string, top bool) {
 			c := c01rCase{Cfg: cfg, Plan: plan}
@@ -744,4 +839,90 @@ func TestVerifC01Real(t *testing.T) {
 		}
 	}
 	r.Count("plans", plans)
+}
+
+
+// TestVerifC16Hop (C16, part "hop"): the same world, judged for coherence of the
+// failure reports with the treatment of the failures (built into the C16 check
+// through its tree list).
+func TestVerifC16Hop(t *testing.T) {
+	r := vx.Start("C16", "hop")
+	defer r.Finish()
+	scratch := os.Getenv("VERIF_SCRATCH")
+	if scratch == "" {
+		scratch = os.TempDir()
+	}
+	scratch = filepath.Join(scratch, fmt.Sprintf("c16h-%d", r.Shard))
+	os.MkdirAll(scratch, 0o755)
+	defer os.RemoveAll(scratch)
+	c01rCheckReports = true
+	r.Rule("the real queue (max_tries 2) in front of the real target.remote / target.smtp / target.lmtp and a scripted next hop answering 451 4.3.0 / 421 / 550 5.1.1 / 552 5.3.4 / 450 and 554 without enhanced code at MAIL, RCPT, DATA and LMTP status, up to 2 faults per plan enumerated on demand; oracle on every failure report: Status and Diagnostic-Code classes agree, a recipient given up before its last permitted try is reported with class 5, a reply after which the recipient was retried is reported with class 4 when it is the last one, 4xx replies are reported as 4.x.x and 5xx replies as 5.x.x; the C01 ledger (every failed recipient named by exactly one report) holds as well")
+	if rp := r.Replay(); rp != nil {
+		var c c01rCase
+		if json.Unmarshal(rp, &c) != nil || c.Cfg.Kind == "" {
+			return
+		}
+		res := c01rRun(scratch, c)
+		r.Eval()
+		if res.fp != "" {
+			r.Violation(strings.Replace(res.fp, "C01:real:", "C16:hop:", 1), res.detail, c)
+		}
+		return
+	}
+	if r.Replaying() {
+		return
+	}
+	acts := []string{"4", "5", "421", "450ne", "554ne", "552"}
+	idx := 0
+	for _, kind := range []string{"remote", "smtp", "lmtp"} {
+		for _, rs := range [][]string{{"a@d1.example"}, {"a@d1.example", "b@d1.example"}} {
+			cfg := c01rCfg{Kind: kind, Rcpts: rs, MaxTries: 2, From: "sender@example.com"}
+			var rec func(plan map[string]string, last string)
+			rec = func(plan map[string]string, last string) {
+				c := c01rCase{Cfg: cfg, Plan: plan}
+				res := c01rRun(scratch, c)
+				if res.quietHang {
+					r.Cap("a run went quiet: " + vx.JSON(c))
+					return
+				}
+				r.Eval()
+				if strings.HasPrefix(res.fp, "HARNESS:") {
+					r.HarnessError(res.fp + " " + res.detail)
+					return
+				}
+				if len(plan) > 0 {
+					r.Nontrivial(vx.JSON(c))
+				}
+				if res.fp != "" {
+					r.Violation(strings.Replace(res.fp, "C01:real:", "C16:hop:", 1), "case "+vx.JSON(c)+"\n"+res.detail, c)
+					return
+				}
+				r.Outcome(res.outcome)
+				if len(plan) >= 2 {
+					return
+				}
+				for _, k := range res.demanded {
+					if k <= last || strings.Contains(k, "|0session|") || strings.Contains(k, "|5quit|") {
+						continue
+					}
+					for _, a := range acts {
+						if strings.Contains(k, "|4status|") && a == "421" {
+							continue
+						}
+						idx++
+						if len(plan) == 0 && !r.Mine(idx) {
+							continue
+						}
+						np := map[string]string{}
+						for x, y := range plan {
+							np[x] = y
+						}
+						np[k] = a
+						rec(np, k)
+					}
+				}
+			}
+			rec(map[string]string{}, "")
+		}
+	}
 }
